@@ -10,6 +10,7 @@ use core::cmp::Ordering;
 verus! {
 global size_of usize == 8;
 //@include prelude/std_contracts.rs
+//@include prelude/iter_wrappers.rs
 //@include prelude/list_core_std.rs
 //@include prelude/list_ops_std.rs
 
